@@ -106,7 +106,7 @@ def register(R):
 
     R.add(Contract(C + 'ComposedNode._propagate_implicit_values', [comp()], requires=piv_req,
                    modifies=lambda c: [(f, (lambda r, c=c: S.Desc(c.ref('self'), r))) for f in S.IMPLICIT],
-                   ensures=[('piv', piv_ens)], props=('C07', 'C15', 'C19'),
+                   ensures=[('piv', piv_ens)], props=('C07', 'C08', 'C15', 'C19'),
                    loops={0: Loop(piv_inv, mod_locals=['child', 'fix'], mod_fields=S.IMPLICIT)}))
 
 
